@@ -88,7 +88,7 @@ def run(ck):
                        "exp(log_likelihood) = 1 within 1e-6)"]
     recs = []
     for C, D in ([(1, 1), (2, 1), (2, 2), (3, 2)] if quick else [(1, 1), (1, 2), (2, 1), (2, 2), (3, 1), (3, 2)]):
-        ms = machines(rng, C, D, 6 if quick else 40)
+        ms = machines(rng, C, D, 6 if quick else 20)
         rows = list(itertools.product(XV, repeat=D))
         batches = []
         for _ in range(4 if quick else 12):
@@ -107,8 +107,8 @@ def run(ck):
         seen.add(k)
         replay(ck, em, rec)
     quadrature(ck, em, rng, 6 if quick else 14)
-    tail_sweep(ck, em, rng, 6 if quick else 30)
-    rare_components(ck, em, rng, 6 if quick else 40)
+    tail_sweep(ck, em, rng, 6 if quick else 14)
+    rare_components(ck, em, rng, 6 if quick else 25)
 
 
 def build(em, m, history=False):
